@@ -18,6 +18,10 @@ str_join = z3.Function("str_join", S, SeqV, S)      # sep.join(xs)
 ascii_ok = z3.Function("ascii_ok", S, B)
 fmt2 = z3.Function("fmt2", S, SeqV, S)              # opaque formatting (%-format / str.format / repr-like), never interpreted
 hash_of = z3.Function("hash_of", Val, I)
+COUNT_FAILED = z3.Function("count_failed", SeqE, I)   # number of events whose c field is True (offers that raised)
+PROJ_A = z3.Function("proj_a", SeqE, SeqV)             # the `a` fields of the events, in order
+ALL_B = z3.Function("all_b", SeqE, Val, B)             # every event's `b` field is the given value
+ALL_TAG = z3.Function("all_tag", SeqE, S, B)           # every event has the given tag
 ALL_REPORTS = z3.Function("all_reports", SeqE, B)     # every event of the sequence is a failure report (axioms in contracts/common.py)
 
 
@@ -27,7 +31,7 @@ class ModelMixin:
                      "ite", "unit", "is_none", "is_str", "is_int", "is_ref", "last", "ref", "allocated",
                      "held", "is_list_of_pos_int", "cls_id", "is_float", "sval", "ival", "dget", "singleton", "str", "is_bool", "is_dict", "is_list",
                      "setof", "contains", "prefix_of", "is_bytes", "is_cls", "map_int2str", "joinstr", "split", "lookup_global",
-                     "funcval", "seqmap", "extends", "only_changed", "UNSET", "unchanged", "unchanged_old", "cls_module_name", "all_reports", "empty_log"}
+                     "funcval", "seqmap", "extends", "only_changed", "UNSET", "unchanged", "unchanged_old", "cls_module_name", "all_reports", "empty_log", "count_failed", "suffix_of", "proj_a", "all_b", "all_tag"}
 
     # ------------------------------------------------------------------ spec-mode calls
     def spec_call(self, e, st):
@@ -279,6 +283,11 @@ class ModelMixin:
             y = self.spec_builtin(st, "seq", [a[1]], e) if a[1].k not in ("seqe",) else a[1]
             lx, ly = z3.Length(x.t), z3.Length(y.t)
             return SV("bool", z3.And(lx <= ly, y.t == z3.Concat(x.t, z3.Extract(y.t, lx, ly - lx))))
+        if name == "suffix_of":
+            x = self.spec_builtin(st, "seq", [a[0]], e) if a[0].k not in ("seqe", "seq") else a[0]
+            y = self.spec_builtin(st, "seq", [a[1]], e) if a[1].k not in ("seqe", "seq") else a[1]
+            lx, ly = z3.Length(x.t), z3.Length(y.t)
+            return SV("bool", z3.And(lx <= ly, y.t == z3.Concat(z3.Extract(y.t, 0, ly - lx), x.t)))
         if name == "extends":
             # extends(new, old): new == old ++ something
             return SV("bool", z3.PrefixOf(a[1].t, a[0].t))
@@ -326,6 +335,14 @@ class ModelMixin:
                                         patterns=[z3.Select(cur, r)]))
         if name == "all_reports":
             return SV("bool", ALL_REPORTS(a[0].t))
+        if name == "proj_a":
+            return SV("seq", PROJ_A(a[0].t))
+        if name == "all_b":
+            return SV("bool", ALL_B(a[0].t, box(a[1])))
+        if name == "all_tag":
+            return SV("bool", ALL_TAG(a[0].t, a[1].t))
+        if name == "count_failed":
+            return SV("int", COUNT_FAILED(a[0].t))
         if name == "empty_log":
             return SV("seqe", z3.Empty(SeqE))
         if name == "cls_module_name":
@@ -652,6 +669,9 @@ class ModelMixin:
                     s.assume(sq == z3.Concat(pre, z3.Unit(x), suf))
                     s.assume(z3.Not(z3.Contains(pre, z3.Unit(x))))
                     self.set_seq(s, recv, z3.Concat(pre, suf))
+                    if self.cur is not None and s.depth == 0 and "PRE" in self.cur.extra.get("ghosts", {}):
+                        s.frames[self.root_fid]["PRE"] = SV("seq", pre)
+                        s.frames[self.root_fid]["SUF"] = SV("seq", suf)
                     return [Res(s, SV("none"))]
                 return self.may_raise(st, z3.Contains(sq, z3.Unit(x)), "ValueError", kr)
             if name == "copy":
